@@ -374,7 +374,9 @@ Section Server.
   | EvW (w : wop)                          (* a writer op between two client requests (or while live) *)
   | EvReq (g0 g1 g2 : list wop)            (* the client's next request, with writer ops in its windows *)
   | EvCheck                                (* periodic position check of a live subscription *)
-  | EvDrop.                                (* the client disconnects; it will come back with recovery *)
+  | EvDrop                                 (* the client disconnects; it will come back with recovery *)
+  | EvLose (w : wop).                      (* fault: a writer op whose PUB/SUB delivery to this node is lost
+                                              (at-most-once broker): the broker changes, nothing is broadcast *)
 
   (* what the outside sees of one step *)
   Inductive out :=
@@ -423,6 +425,7 @@ Section Server.
         if l_sub (y_l y)
         then (mkSys (y_b y) s_none (mkL false 0 0) (on_unsub (y_c y)), ONone)
         else (y, ONone)
+    | EvLose w => (mkSys (apply_w (y_b y) w) (y_s y) (y_l y) (y_c y), ONone)
     end.
 
   Definition step (y : sys) (ev : sev) : sys := fst (step_out y ev).
